@@ -332,6 +332,9 @@ func c04Storm(a []string) string {
 				if (g+k)%3 == 0 { // arguments and results of several kilobytes: frames that do not fit one small write
 					pad = 4100 + (g*31+k*17)%26000
 				}
+				if (g+k)%11 == 5 { // and a few beyond 64 KiB
+					pad = 66000 + (g*13+k*7)%9000
+				}
 				arg := fmt.Sprintf("g%d-k%d-%s", g, k, strings.Repeat("x", pad))
 				got, err := proxies[g].Hello(arg)
 				emu.Lock()
